@@ -7,6 +7,7 @@ sys.path.insert(0, os.path.dirname(os.path.abspath(__file__)))
 sys.path.insert(0, os.path.join(os.path.dirname(os.path.abspath(__file__)), "..", "lib"))
 import ledger_common as L
 import ledger_mutators as M
+import system_common as S
 import vlib
 
 PROP = "C19"
@@ -17,6 +18,9 @@ def run(c):
     L.evaluate(c, PROP, d)
     pred, mut = M.CONTROLS[PROP]
     c.set("negative_control", L.negative_control(d, c.seed, pred, mut))
+    # system level (spec/System.tla): the ledger registry and the bucket lifecycle - creation, metadata, bucket
+    # deletion / restore, listing - must keep ledgers apart too (frame conditions BucketScope, MetaScope, HidesExactly)
+    S.system_stage(c, c.tier, c.seed)
 
 
 vlib.main(run, PROP, "model_checking")
